@@ -1732,11 +1732,13 @@ class RejectDriver:
 
     def repeated_objects(self, names):
         """Games in which the SAME rating object (or the same team list) appears twice.  The
-        property's definition of malformed does not mention them, so they are well-formed by
-        its letter and the pinned code accepts them; a maintainer might nevertheless decide to
-        refuse them.  Demanded here is only what the property says unambiguously: the call is
-        either accepted or refused with TypeError/ValueError - and if it is refused, nothing
-        has been modified."""
+        property defines malformed teams as 'not a list of at least two non-empty lists of that
+        model's own rating objects'; these games ARE such lists, so they are well-formed by its
+        letter (the pinned code accepts them, and the repository's own predict tests seat one
+        player in two teams): they must be accepted.  (Until round 15 the weaker either-way
+        demand was made here - accepted, or cleanly refused; two independently written changes
+        that refuse such games were thereby let through, and nothing in the property's text
+        supports refusing them.)"""
         ctx = self.ctx
         league = self.league
         for variant in ("same_player_in_two_teams", "same_player_twice_in_team", "same_team_list_twice"):
@@ -1757,6 +1759,8 @@ class RejectDriver:
                 if st == "ok":
                     continue
                 label = "%s:%s" % (call, variant)
+                if isinstance(val, (TypeError, ValueError)):
+                    ctx.violation("C13/rejected_wellformed:%s" % label, {"teams": names, "exception": type(val).__name__, "message": str(val)[:200]})
                 if not isinstance(val, (TypeError, ValueError)):
                     ctx.violation("C13/wrong_exception:%s:%s" % (label, type(val).__name__), {"teams": names, "message": str(val)[:200]})
                 if pre_r != rating_digest(objs):
